@@ -55,7 +55,8 @@ def mode_variants(golden, outdir):
     stats = {}
     for f in FILES:
         n = 0
-        with open(os.path.join(outdir, "variants_" + f + ".tsv"), "w", encoding="ascii") as o:
+        final = os.path.join(outdir, "variants_" + f + ".tsv")
+        with open(final + ".tmp%d" % os.getpid(), "w", encoding="ascii") as o:
             for idx, w in enumerate(lists[f]):
                 seen = {w}
                 def put(tag, s):
@@ -82,16 +83,19 @@ def mode_variants(golden, outdir):
                             # canonical reordering); keep only those that do
                             if unicodedata.normalize("NFKD", s) == w:
                                 put("V%04X@%d" % (cp, i), s)
+        os.replace(final + ".tmp%d" % os.getpid(), final)  # atomic: concurrent generators cannot leave a partial table
         stats[f] = n
-    with open(os.path.join(outdir, "variants.ok"), "w") as o:
+    with open(os.path.join(outdir, "variants.ok.tmp%d" % os.getpid()), "w") as o:
         o.write(repr(stats) + "\n" + unicodedata.unidata_version + "\n")
+    os.replace(os.path.join(outdir, "variants.ok.tmp%d" % os.getpid()), os.path.join(outdir, "variants.ok"))
     print("variants:", stats)
 
 def mode_decomp(outdir):
     """Every assigned code point whose NFKD differs from itself: 'cp<TAB>hex(NFKD)<TAB>kind'."""
     os.makedirs(outdir, exist_ok=True)
     n = 0
-    with open(os.path.join(outdir, "decomp.tsv"), "w", encoding="ascii") as o:
+    final = os.path.join(outdir, "decomp.tsv")
+    with open(final + ".tmp%d" % os.getpid(), "w", encoding="ascii") as o:
         for cp in range(0x110000):
             if 0xD800 <= cp <= 0xDFFF:
                 continue
@@ -104,6 +108,7 @@ def mode_decomp(outdir):
             kind = "hangul" if 0xAC00 <= cp <= 0xD7A3 else ("canonical" if unicodedata.normalize("NFD", ch) == d else "compat")
             o.write("%X\t%s\t%s\n" % (cp, d.encode("utf-8").hex(), kind))
             n += 1
+    os.replace(final + ".tmp%d" % os.getpid(), final)
     print("decomp:", n)
 
 def mode_pbkdf2():
